@@ -544,6 +544,460 @@ fn err_case(rng: &mut Rng, i: usize) -> Req {
     Req::new(format!("c16.rt.err i{status} {} s{}", pairs_toks(&headers), h_util::hex(&serde_json::to_vec(&v).unwrap())), format!("rt.err.{code}"))
 }
 
+
+// ---- the macro-generated glue (c16.glue.*)
+
+mod glue_gen {
+    use h_lib::{h_util, stok, Req, Rng};
+
+    use super::{header_value, nasty, nasty_nonempty, sat_tok, versions_tok};
+    use crate::glue::{glue_eps, GVal, GlueEp, Kind, StructDesc, JT};
+
+    fn jstr(rng: &mut Rng) -> JT {
+        JT::Str(nasty(rng))
+    }
+
+    fn uint(rng: &mut Rng) -> u64 {
+        *rng.pick(&[0u64, 1, 7, 42, 255, 65536, 9007199254740991])
+    }
+
+    fn data(rng: &mut Rng) -> JT {
+        let mut o = vec![("x".to_owned(), jstr(rng))];
+        if rng.chance(1, 2) {
+            o.push(("ys".to_owned(), JT::Arr((0..1 + rng.below(3)).map(|_| jstr(rng)).collect())));
+        }
+        JT::Obj(o)
+    }
+
+    /// A value of the struct: wire forms of contents the field types can hold. `clean`: none of
+    /// the contents that run into the recorded findings F17–F19, and header values the encoder
+    /// accepts.
+    pub fn value(rng: &mut Rng, d: &StructDesc, has_body: bool, clean: bool) -> GVal {
+        let mut v = GVal::default();
+        for f in &d.fields {
+            match (&f.kind, f.tag) {
+                (Kind::Path, _) => v.path.push(nasty(rng)),
+                (Kind::Query, "qStr") => v.query.push(vec![nasty(rng)]),
+                (Kind::Query, "qOptStr") => v.query.push(if rng.chance(1, 3) { vec![] } else { vec![nasty_nonempty(rng)] }),
+                (Kind::Query, "qVecStr") => v.query.push((0..*rng.pick(&[0usize, 1, 2, 3])).map(|_| nasty(rng)).collect()),
+                (Kind::Query, "qOptUInt") => v.query.push(if rng.chance(1, 2) { vec![] } else { vec![uint(rng).to_string()] }),
+                (Kind::QueryAll, _) => {
+                    let mut m = std::collections::BTreeMap::new();
+                    for _ in 0..rng.below(4) {
+                        m.insert(nasty(rng), nasty(rng));
+                    }
+                    v.query_all.push(m.into_iter().collect());
+                }
+                (Kind::Header { name, optional }, tag) => {
+                    // F17: an absent optional header the generated code sets itself
+                    let forced = name == "content-type" && has_body;
+                    if *optional && !forced && rng.chance(1, 3) {
+                        v.header.push(None);
+                    } else if tag == "u64" {
+                        v.header.push(Some(rng.pick(&[0u64, 7, 20, 18446744073709551615]).to_string()));
+                    } else if !clean && rng.chance(1, 12) {
+                        // refused by `HeaderValue::from_str`
+                        v.header.push(Some((*rng.pick(&["a\u{1}b", "x\u{7f}", "line\nbreak"])).to_owned()));
+                    } else {
+                        let mut h = header_value(rng);
+                        if rng.chance(1, 6) {
+                            h = format!("{h}{}x", rng.pick(&[" ", "\t", ", ", "; q=0.5 "]));
+                        }
+                        v.header.push(Some(h));
+                    }
+                }
+                (Kind::Body, _) if d.manual => {}
+                (Kind::Body, "bStr") => v.body.push(Some(jstr(rng))),
+                (Kind::Body, "bOptStr") => v.body.push(if rng.chance(1, 3) { None } else { Some(jstr(rng)) }),
+                (Kind::Body, "bOptStrNull") => v.body.push(Some(if rng.chance(1, 3) { JT::Null } else { jstr(rng) })),
+                (Kind::Body, "bVecStr") => {
+                    v.body.push(if rng.chance(1, 3) { None } else { Some(JT::Arr((0..1 + rng.below(3)).map(|_| jstr(rng)).collect())) })
+                }
+                (Kind::Body, "bUInt") => v.body.push(Some(JT::Int(uint(rng) as i128))),
+                (Kind::Newtype, _) => v.whole.push(data(rng)),
+                (Kind::Raw, _) => {
+                    let n = *rng.pick(&[0usize, 1, 5, 40]);
+                    v.raw.push((0..n).map(|_| rng.below(256) as u8).collect());
+                }
+                (k, t) => panic!("generator knows no {k:?} field with codec {t}"),
+            }
+        }
+        if d.manual {
+            v.whole.push(JT::Obj(vec![("wrap".to_owned(), jstr(rng))]));
+        }
+        v
+    }
+
+    fn has_body(d: &StructDesc) -> bool {
+        d.fields.iter().any(|f| matches!(f.kind, Kind::Body | Kind::Newtype | Kind::Raw))
+    }
+
+    fn form_byte(out: &mut String, b: u8, rng: &mut Rng) {
+        if b.is_ascii_alphanumeric() && !rng.chance(1, 20) {
+            out.push(b as char);
+        } else if b == b' ' && rng.chance(1, 2) {
+            out.push('+');
+        } else if matches!(b, b'*' | b'-' | b'.' | b'_') && rng.chance(1, 2) {
+            out.push(b as char);
+        } else {
+            // lower-case hex now and then: a receiver must read both
+            if rng.chance(1, 4) {
+                out.push_str(&format!("%{b:02x}"));
+            } else {
+                out.push_str(&format!("%{b:02X}"));
+            }
+        }
+    }
+
+    fn form(s: &str, rng: &mut Rng) -> String {
+        let mut out = String::new();
+        for b in s.bytes() {
+            form_byte(&mut out, b, rng);
+        }
+        out
+    }
+
+    /// A message as it arrives for the value `v`, at the wire level; then mutated.
+    struct Arriving {
+        method: String,
+        args: Vec<String>,
+        /// raw `name=value` sequences (already encoded)
+        query: Vec<String>,
+        headers: Vec<(String, Vec<u8>)>,
+        /// `e`, `j <json>`, `g s<hex>`
+        body: Body,
+    }
+
+    enum Body {
+        Empty,
+        Json(JT),
+        Garbage(Vec<u8>),
+    }
+
+    fn body_tok(b: &Body) -> String {
+        match b {
+            Body::Empty => "e".to_owned(),
+            Body::Json(j) => {
+                let mut s = "j ".to_owned();
+                j.toks(&mut s);
+                s
+            }
+            Body::Garbage(g) => format!("g s{}", h_util::hex(g)),
+        }
+    }
+
+    fn wellformed(rng: &mut Rng, method: &str, d: &StructDesc, v: &GVal, request: bool) -> Arriving {
+        let mut query = Vec::new();
+        let (mut qi, mut hi, mut bi) = (0, 0, 0);
+        let mut headers: Vec<(String, Vec<u8>)> = Vec::new();
+        let mut obj: Vec<(String, JT)> = Vec::new();
+        for f in &d.fields {
+            match &f.kind {
+                Kind::Query => {
+                    for x in &v.query[qi] {
+                        query.push(format!("{}={}", form(&f.name, rng), form(x, rng)));
+                    }
+                    qi += 1;
+                }
+                Kind::Header { name, .. } => {
+                    if let Some(x) = &v.header[hi] {
+                        headers.push((name.clone(), x.clone().into_bytes()));
+                    }
+                    hi += 1;
+                }
+                Kind::Body if !d.manual => {
+                    if let Some(j) = &v.body[bi] {
+                        obj.push((f.name.clone(), j.clone()));
+                    }
+                    bi += 1;
+                }
+                _ => {}
+            }
+        }
+        for ps in &v.query_all {
+            for (k, x) in ps {
+                query.push(format!("{}={}", form(k, rng), form(x, rng)));
+            }
+        }
+        let body = if let Some(r) = v.raw.first() {
+            if r.is_empty() {
+                Body::Empty
+            } else if serde_json::from_slice::<serde_json::Value>(r).is_err() {
+                Body::Garbage(r.clone())
+            } else {
+                Body::Json(JT::Int(7))
+            }
+        } else if let Some(w) = v.whole.first() {
+            Body::Json(w.clone())
+        } else if d.fields.iter().any(|f| f.kind == Kind::Body) || !request {
+            Body::Json(JT::Obj(obj))
+        } else {
+            Body::Empty
+        };
+        if !matches!(body, Body::Empty) && rng.chance(2, 3) {
+            headers.push(("content-type".to_owned(), b"application/json".to_vec()));
+            headers.dedup_by(|a, b| a.0 == b.0);
+        }
+        Arriving { method: method.to_owned(), args: v.path.clone(), query, headers, body }
+    }
+
+    const BAD_NUMBERS: &[&str] = &["007", "+5", "-1", "1.5", "abc", "", " 7", "7 ", "9007199254740992", "18446744073709551615", "18446744073709551616", "+", "0x10", "1e3"];
+
+    fn wrong_json(rng: &mut Rng) -> JT {
+        match rng.below(9) {
+            0 => JT::Null,
+            1 => JT::Int(*rng.pick(&[-1i128, 0, 3, 9007199254740991, 9007199254740992, 18446744073709551615, 18446744073709551616])),
+            2 => JT::Bool(rng.chance(1, 2)),
+            3 => JT::Str(nasty(rng)),
+            4 => JT::Arr(vec![]),
+            5 => JT::Arr(vec![JT::Int(1)]),
+            6 => JT::Arr(vec![JT::Str(nasty(rng)), JT::Null]),
+            7 => JT::Obj(vec![]),
+            _ => JT::Obj(vec![("x".to_owned(), JT::Int(1))]),
+        }
+    }
+
+    fn mutate(rng: &mut Rng, a: &mut Arriving, d: &StructDesc, request: bool) -> &'static str {
+        let names: Vec<String> = d.fields.iter().map(|f| f.name.clone()).collect();
+        match rng.below(if request { 24 } else { 14 }) {
+            // --- headers
+            0 if !a.headers.is_empty() => {
+                let i = rng.below(a.headers.len());
+                a.headers.remove(i);
+                "header-missing"
+            }
+            1 if !a.headers.is_empty() => {
+                let i = rng.below(a.headers.len());
+                let mut h = a.headers[i].clone();
+                h.1 = (*rng.pick(&["other", "8", "", "é"])).as_bytes().to_vec();
+                if rng.chance(1, 2) {
+                    a.headers.push(h)
+                } else {
+                    a.headers.insert(0, h)
+                }
+                "header-duplicate"
+            }
+            2 if !a.headers.is_empty() => {
+                let i = rng.below(a.headers.len());
+                a.headers[i].1 = match rng.below(4) {
+                    0 => "é".as_bytes().to_vec(),
+                    1 => vec![b'a', 0xff],
+                    2 => b"a\tb".to_vec(),
+                    _ => (*rng.pick(BAD_NUMBERS)).as_bytes().to_vec(),
+                };
+                "header-unparsable"
+            }
+            3 => {
+                a.headers.push(((*rng.pick(&["x-unknown", "accept", "content-type", "authorization", "if-match", "max-forwards", "etag", "location"])).to_owned(), header_value(rng).into_bytes()));
+                "header-extra"
+            }
+            // --- body
+            4 => {
+                a.body = Body::Empty;
+                "body-empty"
+            }
+            5 => {
+                a.body = Body::Garbage((*rng.pick(&["{", "nul", "{\"s\":}", "{\"s\":\"x\"}}", "\u{feff}{}", "[1,", "'x'", "{\"a\":1,}", "\"\\ud800\""])).as_bytes().to_vec());
+                "body-not-json"
+            }
+            6 => {
+                a.body = Body::Json(match rng.below(5) {
+                    0 => JT::Null,
+                    1 => JT::Int(3),
+                    2 => JT::Str(nasty(rng)),
+                    3 => JT::Bool(true),
+                    _ => JT::Obj(vec![]),
+                });
+                "body-non-object"
+            }
+            7 => {
+                if let Body::Json(JT::Obj(o)) = &mut a.body {
+                    if !o.is_empty() {
+                        let i = rng.below(o.len());
+                        o.remove(i);
+                    }
+                }
+                "body-field-missing"
+            }
+            8 => {
+                if let Body::Json(JT::Obj(o)) = &mut a.body {
+                    let k = if rng.chance(1, 2) { "unknown".to_owned() } else { nasty(rng) };
+                    let at = rng.below(o.len() + 1);
+                    o.insert(at, (k, wrong_json(rng)));
+                }
+                "body-field-extra"
+            }
+            9 => {
+                if let Body::Json(JT::Obj(o)) = &mut a.body {
+                    if !o.is_empty() {
+                        let e = o[rng.below(o.len())].clone();
+                        let at = rng.below(o.len() + 1);
+                        o.insert(at, e);
+                    }
+                }
+                "body-field-duplicate"
+            }
+            10 => {
+                if let Body::Json(JT::Obj(o)) = &mut a.body {
+                    if !o.is_empty() {
+                        let i = rng.below(o.len());
+                        o[i].1 = wrong_json(rng);
+                    } else if !names.is_empty() {
+                        o.push((rng.pick(&names).clone(), wrong_json(rng)));
+                    }
+                }
+                "body-field-wrong-type"
+            }
+            11 => {
+                if let Body::Json(JT::Obj(o)) = &mut a.body {
+                    rng.shuffle(o);
+                }
+                "body-field-order"
+            }
+            12 => {
+                // a body field the sender would have skipped, written out
+                if let Body::Json(JT::Obj(o)) = &mut a.body {
+                    for f in &d.fields {
+                        if f.kind == Kind::Body && !o.iter().any(|e| e.0 == f.name) {
+                            o.push((f.name.clone(), if f.tag == "bVecStr" { JT::Arr(vec![]) } else { JT::Null }));
+                        }
+                    }
+                }
+                "body-skipped-written"
+            }
+            13 => "none",
+            // --- requests only: method, path arguments, query
+            14 => {
+                a.method = (*rng.pick(&["HEAD", "GET", "POST", "PUT", "DELETE", "PATCH", "OPTIONS", "get", "Head"])).to_owned();
+                "method"
+            }
+            15 => {
+                match rng.below(3) {
+                    0 => {
+                        a.args.pop();
+                    }
+                    1 => a.args.push(nasty(rng)),
+                    _ => a.args.clear(),
+                }
+                "path-arg-count"
+            }
+            16 if !a.query.is_empty() => {
+                let i = rng.below(a.query.len());
+                a.query.remove(i);
+                "query-missing"
+            }
+            17 if !a.query.is_empty() => {
+                let e = a.query[rng.below(a.query.len())].clone();
+                let at = rng.below(a.query.len() + 1);
+                a.query.insert(at, e);
+                "query-duplicate"
+            }
+            18 => {
+                let k = if rng.chance(1, 2) { "unknown".to_owned() } else { form(&nasty(rng), rng) };
+                let at = rng.below(a.query.len() + 1);
+                a.query.insert(at, format!("{k}={}", form(&nasty(rng), rng)));
+                "query-extra"
+            }
+            19 => {
+                // delimiters and escapes in a value, written as a sloppy sender would
+                let val = *rng.pick(&["a+b", "a%2Bb", "a%26b%3Dc", "%23frag", "100%25", "%", "%4", "%zz", "%FF", "%C3", "%C3%A9", "%E2%82", "%F0%9F%98%80", "%ED%A0%80", "%C0%80", "a%00b", "%e9", "+", "%20", ""]);
+                let key = if !names.is_empty() && rng.chance(3, 4) { rng.pick(&names).clone() } else { "k".to_owned() };
+                let seq = match rng.below(4) {
+                    0 => format!("{key}={val}"),
+                    1 => format!("{val}={val}"),
+                    2 => key,
+                    _ => format!("{key}=={val}"),
+                };
+                if !a.query.is_empty() && rng.chance(1, 2) {
+                    let i = rng.below(a.query.len());
+                    a.query[i] = seq;
+                } else {
+                    a.query.push(seq);
+                }
+                "query-escapes"
+            }
+            20 => {
+                let key = if names.is_empty() { "n".to_owned() } else { rng.pick(&names).clone() };
+                let bad: &str = *rng.pick(BAD_NUMBERS);
+                let seq = format!("{key}={}", form(bad, rng));
+                a.query.retain(|q| !q.starts_with(&format!("{key}=")));
+                a.query.push(seq);
+                "query-number"
+            }
+            21 => {
+                rng.shuffle(&mut a.query);
+                "query-order"
+            }
+            22 => {
+                let at = rng.below(a.query.len() + 1);
+                a.query.insert(at, String::new());
+                "query-empty-sequence"
+            }
+            _ => "none",
+        }
+    }
+
+    fn headers_toks(h: &[(String, Vec<u8>)]) -> String {
+        let mut s = format!("a{}", h.len());
+        for (k, v) in h {
+            s.push_str(&format!(" {} s{}", stok(k), h_util::hex(v)));
+        }
+        s
+    }
+
+    fn push_checked(out: &mut Vec<Req>, req: String, cls: String) {
+        // a message the `http` crate cannot even hold is not a case
+        if crate::run(&req).imp != "bad-op" {
+            out.push(Req::new(req, cls));
+        }
+    }
+
+    fn one(rng: &mut Rng, gid: usize, g: &GlueEp, out: &mut Vec<Req>) {
+        let short = g.name.trim_start_matches("glue::");
+        // sending side
+        let v = value(rng, &g.req, has_body(&g.req), false);
+        let (kind, token) = sat_tok(rng);
+        out.push(Req::new(format!("c16.glue.req {gid} {} {kind} {} {}", versions_tok(rng), stok(&token), v.toks()), format!("glue.req.{short}")));
+        let p = value(rng, &g.resp, true, false);
+        out.push(Req::new(format!("c16.glue.resp {gid} {}", p.toks()), format!("glue.resp.{short}")));
+        // receiving side
+        for _ in 0..2 {
+            let v = value(rng, &g.req, has_body(&g.req), true);
+            let mut a = wellformed(rng, g.meta.method.as_str(), &g.req, &v, true);
+            let mut what = vec![];
+            for _ in 0..*rng.pick(&[0usize, 1, 1, 1, 2, 3]) {
+                what.push(mutate(rng, &mut a, &g.req, true));
+            }
+            let req = format!(
+                "c16.glue.in {gid} {} {} {} {} {}",
+                stok(&a.method),
+                crate::strs_toks(&a.args),
+                stok(&a.query.join("&")),
+                headers_toks(&a.headers),
+                body_tok(&a.body)
+            );
+            push_checked(out, req, format!("glue.in.{short}.{}", what.first().copied().unwrap_or("wellformed")));
+        }
+        let p = value(rng, &g.resp, true, true);
+        let mut a = wellformed(rng, "", &g.resp, &p, false);
+        let mut what = vec![];
+        for _ in 0..*rng.pick(&[0usize, 1, 1, 2]) {
+            what.push(mutate(rng, &mut a, &g.resp, false));
+        }
+        let status = *rng.pick(&[200u16, 200, 200, 201, 204, 302, 399, 400, 404, 429, 500, g.resp.status]);
+        let req = format!("c16.glue.rin {gid} i{status} {} {}", headers_toks(&a.headers), body_tok(&a.body));
+        push_checked(out, req, format!("glue.rin.{short}.{}", what.first().copied().unwrap_or("wellformed")));
+    }
+
+    pub fn gen(rng: &mut Rng, n: usize, out: &mut Vec<Req>) {
+        let eps = glue_eps();
+        for i in 0..n {
+            let gid = i % eps.len();
+            one(rng, gid, &eps[gid], out);
+        }
+    }
+}
+
 // ---- the case list
 
 pub fn gen(rng: &mut Rng, n: usize, tier: &str) -> Vec<Req> {
@@ -633,6 +1087,9 @@ pub fn gen(rng: &mut Rng, n: usize, tier: &str) -> Vec<Req> {
         let o = gen_obj(rng, spec.resp, &[], false);
         v.push(Req::new(format!("c16.rt.synresp {e} {}", h_util::jtoks(&o)), format!("rt.synresp.{}", spec.name)));
     }
+
+    // the macro-generated glue against its model: sending and receiving side
+    glue_gen::gen(rng, n / 4, &mut v);
 
     // real endpoints: default seed for all, specific seeds for the listed ones
     let reps = if thorough { 20 } else { 2 };
